@@ -646,7 +646,7 @@ class DBusObjectHandler :
         """
         self.conn = connection
         self.exports = {}  # map object paths => obj
-        self._weakProxies = weakref.WeakValueDictionary()
+        self._weakProxies = weakref.WeakSet()
 
     def connectionLost(self, reason):
         """
@@ -656,10 +656,8 @@ class DBusObjectHandler :
         @param reason: The value passed to the associated connection's
                        connectionLost method.
         """
-        for wref in self._weakProxies.valuerefs():
-            p = wref()
-            if p is not None:
-                p.connectionLost(reason)
+        for p in list(self._weakProxies):
+            p.connectionLost(reason)
 
     def exportObject(self, dbusObject):
         """
@@ -941,8 +939,6 @@ class DBusObjectHandler :
         @returns: A Deferred to the L{RemoteDBusObject} instance
         """
 
-        weak_id = (busName, objectPath, interfaces)
-
         need_introspection = False
         required_interfaces = set()
 
@@ -965,9 +961,9 @@ class DBusObjectHandler :
                         need_introspection = True
 
             if not need_introspection:
-                return defer.succeed(
-                    RemoteDBusObject(self, busName, objectPath, ifl)
-                )
+                prox = RemoteDBusObject(self, busName, objectPath, ifl)
+                self._weakProxies.add(prox)
+                return defer.succeed(prox)
 
         d = self.conn.introspectRemoteObject(
             busName,
@@ -986,7 +982,7 @@ class DBusObjectHandler :
 
             prox = RemoteDBusObject(self, busName, objectPath, ifaces)
 
-            self._weakProxies[weak_id] = prox
+            self._weakProxies.add(prox)
 
             return prox
 
